@@ -51,7 +51,7 @@ LEVEL_NOTE = (
 DESIGN_REF = "DESIGN.md section 6, C12"
 RULE = (
     "E3 cases = (feature set with <= K features, route in sdl|code|code+) x option sets (full grid 3 indents x descriptions x "
-    "introspection x custom directives {False,True,['foo']} for small K, a 6-entry menu above); evaluation = one "
+    "introspection x custom directives {False,True,['foo']} for the smallest sets, a 6-entry menu and a 3-entry menu for larger ones, see bounds); evaluation = one "
     "print/re-build/re-print of one (schema, options); non-trivial = distinct printed text on which both the printer and the "
     "rebuilt extractor ran. E2 cases = (prelude, first action); each explores every continuation up to depth D; state = "
     "distinct history, transition = one to_string call, execution = one forked child."
@@ -64,8 +64,8 @@ ASSUMPTIONS = [
     "history preludes: graphql_blocking of `{ a __typename }` and of the introspection query; transform_schema with an identity VisibilitySchemaTransform",
 ]
 BOUNDS = {
-    "quick": {"features_full_grid": 1, "features_menu": 2, "history_depth": 3, "history_actions": 12, "preludes": 3},
-    "thorough": {"features_full_grid": 2, "features_menu": 3, "history_depth": 4, "history_actions": 12, "preludes": 3},
+    "quick": {"features_full_grid": 1, "features_menu6": 2, "features_menu3": 0, "history_depth": 3, "history_actions": 12, "preludes": 3},
+    "thorough": {"features_full_grid": 2, "features_menu6": 2, "features_menu3": 3, "history_depth": 4, "history_actions": 12, "preludes": 3},
 }
 TIME_CAP = {"quick": 150, "thorough": 1500}
 
@@ -81,6 +81,7 @@ def _opt(indent=4, desc=True, intro=False, custom=False):
 
 
 FULL_GRID = [_opt(i, d, n, c) for c in CUSTOM for n in (False, True) for d in (True, False) for i in INDENTS]
+MENU_SMALL = [_opt(), _opt(custom=True), _opt(intro=True, desc=False)]
 MENU = [
     _opt(),
     _opt(custom=True),
@@ -228,27 +229,6 @@ def _strip_desc(n):
     return n
 
 
-def _default_detail(sm, path, attr):
-    """class-key detail for a default difference: kind of the named type and of the declared literal."""
-    parts = path.split(".")
-    el = None
-    try:
-        if parts[0].startswith("@"):
-            d = [d for d in sm["directives"] if d["name"] == parts[0][1:]][0]
-            el = [a for a in d["args"] if a["name"] == parts[1]][0]
-        else:
-            t = M.sm_type(sm, parts[0])
-            f = [f for f in t["fields"] if f["name"] == parts[1]][0]
-            el = f if len(parts) == 2 else [a for a in f["args"] if a["name"] == parts[2]][0]
-    except Exception:  # noqa
-        return ""
-    named = M.tname(el["type"])
-    env = M.sm_env(sm)
-    kind = env[named]["kind"] if named in env else named
-    lit = el["default"][0] if el.get("default") else "none"
-    return "/type=%s/lit=%s" % (kind, lit)
-
-
 _CTX = {}
 
 
@@ -294,7 +274,12 @@ def rt_eval(features, route, o, st=None):
     try:
         parse(t1, allow_type_system=True)
     except Exception as e:  # noqa
-        return [("text-does-not-parse:%s" % type(e).__name__, "%s on %r" % (str(e)[:200], t1[:600]))]
+        pos = getattr(e, "position", None)
+        import re
+
+        # mechanical facet: is there a block string whose closing quotes directly follow a backslash?
+        after = "backslash-before-closing-quotes" if re.search(r'\\"""[ \t]*\n', t1) else "elsewhere"
+        return [("text-does-not-parse:%s/%s" % (type(e).__name__, after), "%s on %r" % (str(e)[:200], t1[:600]))]
     try:
         s2 = build_schema(t1)
     except RecursionError:
@@ -321,7 +306,7 @@ def rt_eval(features, route, o, st=None):
     for what, path, e, g in M.sm_diff(exp, got, ignore=ignore):
         cls = "roundtrip-differs:" + what
         if what.endswith(".default") or what.endswith(".has_default"):
-            cls += _default_detail(sm, path, what)
+            cls += M.default_detail(sm, path)
         cls += rsfx
         if cls in seen:
             continue
@@ -334,8 +319,59 @@ def rt_eval(features, route, o, st=None):
         out.append(("reprint-raises:%s%s" % (r2[1], rsfx), r2[2]))
     elif r2[1] != t1 and not out:
         # (a structural difference already explains a different second text)
-        out.append(("not-fixpoint/opts=%s%s" % (opt_label(o), rsfx), "first %r second %r" % (_first_diff(t1, r2[1]))))
+        out.append(("not-fixpoint/%s%s" % (diff_facet(t1, r2[1]), rsfx), "options %s: first %r second %r" % ((opt_label(o),) + _first_diff(t1, r2[1]))))
     return out
+
+
+def diff_facet(a, b):
+    """What kind of text differs between two prints (mechanical; used in class keys)."""
+    import collections
+    import re
+
+    ca = collections.Counter(re.findall(r"@([A-Za-z_]+)", a))
+    cb = collections.Counter(re.findall(r"@([A-Za-z_]+)", b))
+    names = sorted({("@" + n) if n in M.BUILTIN_DIRECTIVES else "@custom" for n in set(ca) | set(cb) if ca[n] != cb[n]})
+    parts = []
+    if names:
+        parts.append("applied-directives:" + ",".join(names))
+    if len(re.findall(r"(?m)^schema\b", a)) != len(re.findall(r"(?m)^schema\b", b)):
+        parts.append("schema-definition")
+    if not parts:
+        if a.split() == b.split():
+            parts.append("whitespace")
+        elif _strip_default_literals(a) == _strip_default_literals(b):
+            parts.append("default-literal")
+        else:
+            parts.append("other")
+    return "+".join(parts)
+
+
+def _strip_default_literals(text):
+    """Remove every ` = <constant value>` (own scanner: strings, brackets, braces)."""
+    out = []
+    i, n = 0, len(text)
+    while i < n:
+        if text.startswith(" = ", i):
+            j = i + 3
+            depth = 0
+            while j < n:
+                c = text[j]
+                if c == '"':
+                    j += 1
+                    while j < n and text[j] != '"':
+                        j += 2 if text[j] == "\\" else 1
+                elif c in "[{":
+                    depth += 1
+                elif c in "]}":
+                    depth -= 1
+                elif depth == 0 and (c in ",)\n" or text.startswith(" @", j)):
+                    break
+                j += 1
+            i = j
+            continue
+        out.append(text[i])
+        i += 1
+    return "".join(out)
 
 
 def _first_diff(a, b):
@@ -473,11 +509,15 @@ def cases(tier):
     for prelude in PRELUDES:
         for a in ACTIONS:
             yield {"kind": "hist", "prelude": prelude, "first": a, "depth": b["history_depth"]}
-    for fs in G.feature_sets(b["features_menu"]):
-        grid = "full" if len(fs) <= b["features_full_grid"] else "menu"
-        for route in ROUTES:
-            if route == "code" and grid == "menu" and len(fs) > b["features_full_grid"] + 0 and tier == "quick":
-                continue  # quick: plain code route only with the full grid
+    top = max(b["features_full_grid"], b["features_menu6"], b["features_menu3"])
+    for fs in G.feature_sets(top):
+        if len(fs) <= b["features_full_grid"]:
+            grid, routes = "full", ROUTES
+        elif len(fs) <= b["features_menu6"]:
+            grid, routes = "menu6", ("sdl", "code+")
+        else:
+            grid, routes = "menu3", ("sdl", "code+")
+        for route in routes:
             yield {"kind": "rt", "features": fs, "route": route, "grid": grid}
 
 
@@ -507,7 +547,7 @@ def check_case(case, st):
         return out
     st.n("tag:roundtrip-case")
     st.n("route:" + case["route"])
-    opts = FULL_GRID if case["grid"] == "full" else MENU
+    opts = {"full": FULL_GRID, "menu6": MENU, "menu3": MENU_SMALL}[case["grid"]]
     if st.counters.get("cases", 0) % 211 == 1:
         st.sample({"features": case["features"], "route": case["route"], "options": len(opts)})
     for o in opts:
